@@ -489,7 +489,7 @@ Proof.
     destruct (negb (c_manual c)) eqn:Man; [cbn [fst snd]; split; auto; apply void_inv|].
     cbn [fst snd]. split; auto. right.
     unfold core24, current_interval, current_channel, budget_ok in *. psimpl. msimpl.
-    refine (conj Cm (conj Clt (conj Ci (conj _ Cp)))). destruct (c_manual c); [|discriminate]. split; auto. discriminate.
+    refine (conj Cm (conj Clt (conj Ci (conj _ Cp)))). destruct (c_manual c); [|discriminate]. split; auto.
   - (* AddCh *)
     destruct (negb (m_pending m =? 0) || negb (in_adv_channels ch) || negb (c_varmap c)) eqn:Z;
       [cbn [fst snd]; split; auto; apply void_inv|].
@@ -518,14 +518,14 @@ Proof.
     assert (VI' : c_varival c = true) by (destruct (c_varival c); auto; discriminate).
     unfold core24, current_interval, current_channel, budget_ok in *. rewrite VI' in *.
     destruct ((20 <=? ms) && (ms <=? 10240)); psimpl; msimpl; auto.
-    refine (conj Cm (conj Clt (conj eq_refl (conj Css Cp)))).
+    all: try refine (conj Cm (conj Clt (conj eq_refl (conj Css Cp)))).
   - (* IvalUs *)
     destruct (negb (c_varival c)) eqn:VI; [cbn [fst snd]; split; auto; apply void_inv|].
     cbn [fst snd]. split; auto. right.
     assert (VI' : c_varival c = true) by (destruct (c_varival c); auto; discriminate).
     unfold core24, current_interval, current_channel, budget_ok in *. rewrite VI' in *.
     destruct ((20000 <=? us) && (us <=? 10240000)); psimpl; msimpl; auto.
-    refine (conj Cm (conj Clt (conj eq_refl (conj Css Cp)))).
+    all: try refine (conj Cm (conj Clt (conj eq_refl (conj Css Cp)))).
   - (* DAddr *)
     destruct (m_map m =? 0) eqn:Z; [cbn [fst snd]; split; auto; apply void_inv|].
     destruct (negb (has_directed c)); [cbn [fst snd]; split; auto; apply void_inv|].
@@ -543,3 +543,26 @@ Proof.
   - cbn [fst snd]. split; auto. right; auto.
   - cbn [fst snd]. split; auto. right; auto.
 Qed.
+
+Lemma init_inv24 c : inv24 c (init c) (minit24 c).
+Proof.
+  right. unfold core24, init, minit24, current_interval, current_channel, budget_ok. psimpl. msimpl.
+  split; [destruct (c_varmap c); reflexivity|].
+  split; [reflexivity|].
+  split; [reflexivity|].
+  split; [destruct (c_manual c); cbn [negb]; auto; split; auto; discriminate|].
+  intros H. exfalso. revert H. apply N.lt_irrefl.
+Qed.
+
+Lemma monitor24_from_ok c ops :
+  forall s m pos, inv24 c s m -> monitor_from (mstep24 c) m pos (run c s ops) = None.
+Proof.
+  induction ops as [|o t IH]; intros s m pos I; cbn [run]; [reflexivity|].
+  pose proof (step24_ok c s m o I) as H.
+  destruct (step c s o) as [s' r]. cbn [fst snd] in H. cbn [monitor_from].
+  destruct (mstep24 c m o r) as [v m']. cbn [fst snd] in H. destruct H as [-> I']. apply IH; auto.
+Qed.
+
+Theorem monitor24_accepts_model c ops : monitor24 c (run c (init c) ops) = None.
+Proof. apply monitor24_from_ok. apply init_inv24. Qed.
+Print Assumptions monitor24_accepts_model.
